@@ -15,8 +15,10 @@ RULE = ('A real Client (AsyncClient) is connected to a real Server '
         'configurations. Generated scripts of emit / send / call in both '
         'directions on 1-3 namespaces with generated event names, payloads '
         '(JSON+bytes trees, tuples only at top level, 64-bit ints) and '
-        'handler return values, with and without acknowledgement, and bursts '
-        'of consecutive messages. Oracle: the peer handler for that event and '
+        'handler return values, with and without acknowledgement, bursts '
+        'of consecutive messages, and answers kept in flight (in order) '
+        'while the next burst is sent, so that acknowledgements overtake '
+        'later emits. Oracle: the peer handler for that event and '
         'namespace is invoked exactly once with args == the documented '
         'packing of the payload (type-strict), in send order per direction; '
         'callback args / call() result follow the same rule applied to the '
@@ -53,7 +55,12 @@ def strategy(tier):
         # the receiving handler raises after it was invoked (only for
         # messages without acknowledgement): what follows must still arrive
         'fault': st.sampled_from([False, False, False, True])})
-    burst = st.lists(msg, min_size=1, max_size=4)
+    # a burst is a list of messages sent back to back; 'hold' (last element)
+    # is how many frames of the *answering* direction arrive before the next
+    # burst is sent (None: all) - the rest stays in flight, in order
+    burst = st.tuples(st.lists(msg, min_size=1, max_size=4),
+                      st.sampled_from([None, None, None, 0, 1, 2, 3])).map(
+        lambda t: t[0] + [{'hold': t[1]}])
     return st.fixed_dictionaries({
         'aio': st.booleans(),
         'serializer': st.sampled_from(['default', 'msgpack']),
@@ -124,6 +131,8 @@ def _run(case, ln):
     seen = set()
     for burst in case['bursts']:
         for m in burst:
+            if 'hold' in m:
+                continue
             ns = nss[m['ns'] % len(nss)]
             ev = 'message' if m['kind'].startswith('send') else m['event']
             if (ns, ev) not in seen:
@@ -142,12 +151,16 @@ def _run(case, ln):
               'framing': case['framing'], 'nontrivial': False}
     n_int = 0
 
+    cbs = []
     for bi, burst in enumerate(case['bursts']):
         d = burst[0]['dir']
         slog.clear()
         clog.clear()
-        cbs = []
         exp = []
+        hold = None
+        if 'hold' in burst[-1]:
+            hold = burst[-1]['hold']
+            burst = burst[:-1]
         for mi, m in enumerate(burst):
             ns = nss[m['ns'] % len(nss)]
             kind = m['kind']
@@ -202,7 +215,14 @@ def _run(case, ln):
                 if not strict_eq(r, want_r):
                     raise Violation('call-result', '%s: %r != %r'
                                     % (d, r, want_r))
-        ln.pump()
+        if hold is None:
+            ln.pump()
+        elif d == 'c2s':
+            ln.pump(max_s2c=hold)
+            labels['answers_held'] = True
+        else:
+            ln.pump(max_c2s=hold)
+            labels['answers_held'] = True
         log = slog if d == 'c2s' else clog
         got = [(e[0], e[1], list(e[3] if d == 'c2s' else e[2])) for e in log]
         if d == 'c2s':
@@ -222,21 +242,26 @@ def _run(case, ln):
             if not strict_eq(g[2], e[2]):
                 raise Violation('arguments-changed', '%s %r on %s: %r != %r'
                                 % (d, e[1], e[0], g[2], e[2]))
-        for slot in cbs:
-            calls = slot.get('calls', [])
-            if len(calls) != 1:
-                raise Violation('callback-count', '%d' % len(calls))
-            if not strict_eq(list(calls[0]), slot['want']):
-                raise Violation('callback-arguments', '%r != %r'
-                                % (list(calls[0]), slot['want']))
         if len(burst) >= 2:
             labels['burst'] = True
+    # everything still in flight arrives; every callback ran exactly once
+    # with the value its own handler returned
+    ln.pump()
+    for slot in cbs:
+        calls = slot.get('calls', [])
+        if len(calls) != 1:
+            raise Violation('callback-count', '%d calls of the callback of '
+                            '%s %r' % (len(calls), slot['m']['dir'],
+                                       slot['m']['event']))
+        if not strict_eq(list(calls[0]), slot['want']):
+            raise Violation('callback-arguments', '%r != %r'
+                            % (list(calls[0]), slot['want']))
     errs = [e for e in ln.ch.bg_errors + ln.sh.bg_errors + [
         x[1] for x in ln.sh.swallowed + ln.ch.swallowed]
         if 'application handler fault' not in str(e)]
     if errs:
         raise Violation('error-during-exchange', repr(errs[0]))
-    nmsg = sum(len(b) for b in case['bursts'])
+    nmsg = sum(len([m for m in b if 'hold' not in m]) for b in case['bursts'])
     labels['nontrivial'] = n_int >= 1 and nmsg >= 2
     labels['interesting_values'] = min(n_int, 5)
     return labels
